@@ -48,6 +48,11 @@ def build_corr(d):
             content.append(pe.CObs(cell(v), cell(v * 0.5 + 0.1)) if d.get('cplx') else cell(v))
         else:
             mat = np.array([[cell(x) for x in row] for row in v], dtype=object)
+            if d.get('share'):
+                # some transposed pairs hold the very same object (a symmetric block), the others are different observables
+                for (i, j) in d['share']:
+                    if i < d['N'] and j < d['N']:
+                        mat[j, i] = mat[i, j]
             if d.get('twin'):
                 # transposed entries with identical central values and different fluctuations: symmetric in value only
                 for i in range(d['N']):
@@ -582,7 +587,7 @@ def gen_case(ctx):
         cp = rng.random() < 0.6
         a = gen_corr(rng, cplx=cp)
     elif m in ('item', 'trace', 'matrix_symmetric', 'projected', 'ctor'):
-        a = gen_corr(rng, N=rng.choice([2, 3]))
+        a = gen_corr(rng, N=rng.choice([2, 3, 3, 4]) if m == 'matrix_symmetric' else rng.choice([2, 3]))
     elif m in ('symmetric', 'anti_symmetric', 'T_symmetry', 'hankel', 'repr'):
         a = gen_corr(rng, N=1, T=rng.choice([2, 4, 6, 8, 10, 12, 16, 5, 7]))
     else:
@@ -590,6 +595,14 @@ def gen_case(ctx):
     T, N = len(a['vals']), a['N']
     if m in ('matrix_symmetric', 'item', 'trace') and rng.random() < 0.35:
         a['twin'] = True
+    elif m == 'matrix_symmetric' and rng.random() < 0.6:
+        prs = [(i, j) for i in range(N) for j in range(i + 1, N)]
+        a['share'] = [list(p_) for p_ in rng.sample(prs, rng.randint(1, len(prs) - 1))] if len(prs) > 1 else []
+        late = [p_ for p_ in prs if p_[1] > p_[0] + 1]
+        if late and rng.random() < 0.6:
+            # everything symmetric by identity except ONE pair that is not the first of its row
+            drop = rng.choice(late)
+            a['share'] = [list(p_) for p_ in prs if p_ != drop]
     case = {'kind': 'index', 'm': m, 'a': a, 'args': {}}
     if m == 'roll':
         case['args'] = {'dt': rng.choice([0, 1, -1, 2, T, -T, T + 1, -(T + 2), 3 * T + 1, rng.randint(-40, 40)])}
